@@ -11,13 +11,14 @@ pub mod c09;
 pub mod c11;
 pub mod c12;
 pub mod c13;
+pub mod c14;
 pub mod c15;
 pub mod c16;
 pub mod c17;
 pub mod c18;
 
 pub fn all() -> &'static [PropDef] {
-    static ALL: &[PropDef] = &[c01::DEF, c04::DEF, c05::DEF, c06::DEF, c07::DEF, c09::DEF, c11::DEF, c12::DEF, c13::DEF, c15::DEF, c16::DEF, c17::DEF, c18::DEF];
+    static ALL: &[PropDef] = &[c01::DEF, c04::DEF, c05::DEF, c06::DEF, c07::DEF, c09::DEF, c11::DEF, c12::DEF, c13::DEF, c14::DEF, c15::DEF, c16::DEF, c17::DEF, c18::DEF];
     ALL
 }
 
